@@ -80,6 +80,7 @@ type Out struct {
 
 // Trace of a run.
 type Trace struct {
+	Spin           bool // the case exceeded its real-time budget twice (a goroutine spins); only Deadlock is set then
 	Outs           []Out
 	WStart, WDone  []int64 // per element (unite: per element of the slice, same value for all of a slice)
 	SliceOf        []int   // unite: index of the input slice an element belongs to
@@ -188,13 +189,13 @@ func doStop1(mu *sync.Mutex, tr *Trace, now func() int64, s Script, d *sut, stop
 }
 
 // Execute runs the script inside a bubble.
-func Execute(t *testing.T, s Script, leakScan bool) Trace {
+func execute1(t *testing.T, s Script, leakScan bool, budget time.Duration) Trace {
 	tr := Trace{ClosedAt: -1, StopIssuedAt: -1, StopReturnedAt: -1}
 	var before map[string]string
 	if leakScan {
 		before = bubble.LibGoroutines()
 	}
-	res := bubble.Run(t, func() {
+	res := bubble.RunBudget(t, budget, func() {
 		epoch := time.Now()
 		now := func() int64 { return int64(time.Since(epoch)) }
 		var mu sync.Mutex
@@ -461,9 +462,24 @@ func Execute(t *testing.T, s Script, leakScan bool) Trace {
 			}
 		}
 	})
+	if res.Spin {
+		// the abandoned bubble may still be writing to tr: report nothing but the verdict
+		return Trace{Spin: true, Deadlock: res.Deadlock, ClosedAt: -1, StopIssuedAt: -1, StopReturnedAt: -1}
+	}
 	tr.Deadlock = res.Deadlock
 	if res.Panic != "" {
 		tr.Deadlock = "harness panic: " + res.Panic
+	}
+	return tr
+}
+
+// Execute runs the script inside a bubble. A case that exceeds the real-time budget (a
+// spinning goroutine) is executed once more with a larger budget before it is reported.
+func Execute(t *testing.T, s Script, leakScan bool) Trace {
+	b := bubble.CaseBudget()
+	tr := execute1(t, s, leakScan, b)
+	if tr.Spin && b > 0 {
+		tr = execute1(t, s, leakScan, 3*b)
 	}
 	return tr
 }
